@@ -71,6 +71,9 @@ def _cfg_steps_rs(cfg: Dict[str, Any]) -> List[List[Any]]:
         elif rom["api"] == "window":
             steps.append(["rom_window", 0x40000, rom["k"]])
             mapped = True
+        elif rom["api"] == "sysimg":
+            steps.append(["sys_image", rom["len"], rom["k"]])
+            mapped = True
     if cfg.get("map"):
         steps.append(["pce500_map"])
     ro = [list(r) for r in cfg.get("ro") or []]
@@ -797,6 +800,10 @@ def _shard(task: Tuple[int, int, str, int, int]) -> Report:
             kinds = [x[0] for x in M.steps(cfg)]
             if "ovl" in kinds and any(k != "ovl" for k in kinds[kinds.index("ovl"):]):
                 lab.append("cfg:overlay-before-card-call")
+        if cfg.get("rom") and cfg["rom"]["api"] == "sysimg":
+            ln = cfg["rom"]["len"]
+            lab.append("cfg:sysimg=" + ("full-1MiB" if ln == 0x100000 else ("longer" if ln > 0x100000 else
+                                        ("window-sized" if ln == 0x40000 else "short"))))
         if cfg.get("ro"):
             lab.append("cfg:ro-ranges")
         if cfg.get("mirror"):
@@ -812,6 +819,10 @@ def _shard(task: Tuple[int, int, str, int, int]) -> Report:
         if any(x[0] == "rm" for x in M.steps(cfg)):
             lab.append("cfg:overlay-removed-again" if len(M.live_overlays(cfg)) < len(cfg.get("ovl") or [])
                        else "cfg:remove-before-registration")
+        narrow = G.narrow_regions(m)
+        if narrow:
+            lab.append("cfg:narrow-region(1-3 bytes)")
+        sysfull = bool(cfg.get("rom")) and cfg["rom"]["api"] == "sysimg" and cfg["rom"]["len"] >= 0x100000
         after_rej = False
         for op in case["ops"][:checked]:
             if op[0] == "rej":
@@ -821,6 +832,17 @@ def _shard(task: Tuple[int, int, str, int, int]) -> Report:
             regions, flags = M.describe(m, op[1], op[2] // 8)
             if after_rej and ("card" in regions or "ovlp" in regions or "oram" in regions):
                 lab.append("op:" + op[0] + "-in-overlay-after-rejected-call")
+            if narrow and op[2] > 8:
+                cs = m.cells(op[1], op[2] // 8)
+                for lo, hi in narrow:
+                    if cs[0] < lo and hi < cs[-1] and cs[-1] - cs[0] == len(cs) - 1:
+                        lab.append(f"op:{op[0]}{op[2]}/{op[-1]}-enclosing-narrow-region")
+                        rep.extra["enclosing_accesses"] = rep.extra.get("enclosing_accesses", 0) + 1
+                    elif cs[0] <= hi and lo <= cs[-1] and cs[-1] - cs[0] == len(cs) - 1:
+                        lab.append(f"op:{op[0]}-across-narrow-region-edge")
+            if sysfull and op[0] == "st" and any(r in ("ro", "rom") for r in regions.split("|")):
+                lab.append("op:st-into-readonly-window-of-full-system-image")
+                rep.extra["sysimg_ro_stores"] = rep.extra.get("sysimg_ro_stores", 0) + 1
             if "int-ovlp" in regions:
                 lab.append("op:" + op[0] + "-in-internal-overlay")
             if "ovlp" in regions:
